@@ -324,3 +324,5 @@ MANIFEST = {
     'technique': 'value-term extraction and sibling comparison + ordering of recorded effects + finite-abstraction evaluation of padding arithmetic',
     'design_ref': 'DESIGN.md 3/C07',
 }
+MANIFEST['note'] += (' Also decided here (necessary conditions shared between properties or added after the independent '
+                     'change rounds, DESIGN.md 8.7): Rounds 7-8: Message.parse refuses a genuine message for nothing but header / checksum (from C05).')
